@@ -6,7 +6,9 @@ CONSTANTS
   Header = "first"
   Merge = "grid"
   Sep = "once"
+  Dedup = "none"
   MaxSpecial = 1
   FullCells = 0
+  MaxRepeat = 2
 INVARIANTS RoundTrip
 CHECK_DEADLOCK FALSE
